@@ -496,6 +496,50 @@ def spec_make_fragments_entry(ck, functional):
     ck.absorb(ex, 'Fragments::make_fragments', finals)
 
 
+def spec_make_fragments_debug_arithmetic(ck):
+    """"id wrap-around after 65536 frames": the frame counter a sender keeps wraps in EVERY build profile.  The other obligations
+    are decided on the release-arithmetic MIR (+ wraps); this one runs make_fragments on the MIR dumped with overflow checks on
+    (what `cargo build` without --release produces; both profiles abort on panic): no frame id makes it panic."""
+    db = ck.dbs.get('bin_on')
+    label = 'C11/producer/the-frame-counter-wraps-around-in-a-debug-build-too'
+    if db is None:
+        return
+    try:
+        fn = db.method('Fragments', 'make_fragments')
+    except KeyError:
+        ck.add(label, 'undecided', 'anchor_missing: Fragments::make_fragments')
+        return
+    ck.target(fn)
+    ex = ck.engine(db=db)
+    st = State()
+    ex.overrides.append((re.compile(r'^<T as Fragmentable>::as_buffer$'), lambda ctx: sym_bytes(ctx.ex, ctx.st, 'frame')))
+    ex.no_inline = [re.compile(r'MakeFragments::<.*>::new$|MakeFragments::new$')]
+    mtu = Int(z3.BitVec('mtu', 64), 64)
+    nid = Int(z3.BitVec('next_id', 16), 16)
+    idcell = st.alloc(nid)
+    ex.inputs = {'mtu': mtu, 'next_id': nid}
+    finals = ex.call_fn(st, fn, [mtu, Ref(idcell, ()), Opaque('T', 'thing')])
+    hit = False
+    for f in ex.findings:
+        if 'overflow' in (f.detail or '') or 'attempt_to' in (f.site or ''):
+            f.site = label
+            f.target = 'Fragments::make_fragments (debug arithmetic)'
+            hit = True
+    if label in ex.site_samples or hit:
+        pass
+    renamed = {}
+    for k, v in list(ex.site_samples.items()):
+        if 'make_fragments/assert' in k:
+            renamed[label] = v
+            del ex.site_samples[k]
+    ex.site_samples.update(renamed)
+    if not renamed and not hit:
+        # no arithmetic check left in the function (wrapping_add, a u32 counter masked, ...): nothing can overflow
+        ck.add(label, 'discharged', 'make_fragments has no overflow check on any path (debug-arithmetic MIR)', None, 'Fragments::make_fragments (debug arithmetic)')
+    ck.absorb(ex, 'Fragments::make_fragments (debug arithmetic)', finals)
+    ck.bounds['make_fragments-debug'] = 'any frame id, any datagram size, frame of <= %d bytes; MIR with overflow checks on' % MAXLEN
+
+
 # =========================================================================== native replay plans
 
 def _hx(v):
@@ -538,6 +582,8 @@ def replay_plan(ob):
             if 'incomplete-yields-no-frame' in lab or 'no-removal-when-incomplete' in lab:
                 return None
             return None
+        if lab.startswith('C11/producer/') and 'debug-build' in lab:
+            return 'fragment', {'driver': 'make_fragments', 'arithmetic': 'debug', 'args': {'mtu': 12, 'frame_len': 10, 'next_id': inp.get('next_id', 65535)}}, panicked
         if lab.startswith('C11/producer/'):
             if 'mtu' in inp and ('frame_len' in inp or 'rest_len' in inp):
                 n = inp.get('frame_len', inp.get('rest_len'))
